@@ -15,7 +15,8 @@ PROPS = {}
 for f in sorted(os.listdir(os.path.join(HERE, "reg"))):
     if f.startswith("c") and f.endswith(".py"):
         m = importlib.import_module(f[:-3])
-        PROPS[m.PROP["id"]] = m.PROP
+        if hasattr(m, "PROP"):
+            PROPS[m.PROP["id"]] = m.PROP
 
 
 def jobs_for(prop):
